@@ -130,7 +130,7 @@ def check_spec(case):
     over = overrides_for(spec, [(i, v) for i, v in case.get('over', [])])
     with G.workdir() as d:
         src = os.path.join(d, 'in')
-        paths = G.write_files(spec, src)
+        paths = G.write_files(spec, src, merge=bool(case.get('merge')))  # merged cells are read-only: write() has to step over them
         if sink == 'loaded':
             # partial model: only some outputs are loaded, the rest of the loaded books must stay untouched
             outs = [c for c in spec['cells'] if 'f' in c]
@@ -291,17 +291,40 @@ _CONST = st.one_of(st.sampled_from(G.NUM_CONST), st.sampled_from(G.TXT_CONST), s
 
 
 def _specs(tier):
-    return st.builds(lambda spec, sink, over, out: {'k': 'spec', 'spec': spec, 'sink': sink, 'over': over, 'out': out},
+    return st.builds(lambda spec, sink, over, out: {'k': 'spec', 'spec': spec, 'sink': sink, 'over': over, 'out': out % 21, 'merge': out >= 21},
                      G.specs(tier, max_books=2, wholecols=False, const=_CONST,
                              sheet_classes=['plain', 'plain', 'space', 'mixed', 'nonascii', 'casefold']),
                      st.sampled_from(['fresh', 'loaded', 'disk']),
                      st.one_of(st.just([]), st.lists(st.tuples(st.integers(0, 20), _VAL).map(list), min_size=1, max_size=3)),
-                     st.integers(0, 20))
+                     st.integers(0, 41))
 
 
 STRATEGIES = {'specs': _specs}
 
 
+def _merged_shapes():
+    """Fixed shapes (added after seed c16-b-r5): a rectangle read by a formula whose first / middle / last row starts with a
+    merged pair (value in the left cell, the right one a read-only merged cell), populated rows around it; every sink."""
+    out = []
+    for mrow in (1, 2, 3):
+        for width in (2, 3):
+            cells = []
+            for r in (1, 2, 3):
+                for c in range(1, width + 1):
+                    if r == mrow and c == 2:
+                        continue  # the merged (unpopulated) cell
+                    cells.append({'at': [0, 0, r, c], 'v': float(10 * r + c)})
+            cells.append({'at': [0, 0, 1, 5], 'f': ['fn', 'SUM', ['rng', [0, 0, 1, 1, 3, width]]]})
+            cells.append({'at': [0, 0, 2, 5], 'f': ['bin', '&', ['ref', [0, 0, 3, 1]], ['str', '-']]})
+            cells.append({'at': [0, 0, 7, 7], 'v': 'untouched'})
+            spec = {'books': [{'name': 'b0.xlsx', 'sheets': ['DATA']}], 'cells': cells, 'names': []}
+            for sink in ('loaded', 'disk', 'fresh'):
+                for over in ([], [[0, 5.0]]):
+                    out.append({'k': 'spec', 'spec': spec, 'sink': sink, 'over': over, 'out': 0, 'merge': True})
+    return out
+
+
 def parts(tier, seed):
     q = tier == 'quick'
-    return [('hyp', 'specs', 1600 if q else 12000, 10)]
+    return [('hyp', 'specs', 1600 if q else 12000, 10),
+            ('enum', 'merged-cells', _merged_shapes(), 2, False)]
